@@ -136,8 +136,9 @@ def flag_complex(G, max_order=2, ps=None, seed=None):
 
     S = SimplicialComplex()
     S.add_nodes_from(nodes)
-    S.add_simplices_from(edges)
-    if not ps:  # promote all cliques
+    # member *sets*: unambiguous for add_simplices_from whatever the node labels are
+    S.add_simplices_from(frozenset(e) for e in edges)
+    if ps is None or len(ps) == 0:  # promote all cliques
         S.add_simplices_from(cliques_to_add, max_order=max_order)
         return S
 
@@ -193,7 +194,8 @@ def flag_complex_d2(G, p2=None, seed=None):
 
     S = SimplicialComplex()
     S.add_nodes_from(nodes)
-    S.add_simplices_from(edges)
+    # member *sets*: unambiguous for add_simplices_from whatever the node labels are
+    S.add_simplices_from(frozenset(e) for e in edges)
 
     triangles_empty = find_triangles(G)
 
@@ -304,7 +306,9 @@ def _cliques_to_fill(G, max_order):
     Returns
     -------
     cliques : list
-        List of cliques
+        List of cliques, each a frozenset of nodes (a set is always read
+        as a member set by `add_simplices_from`, also when the nodes of `G`
+        are tuples, e.g. those of `networkx.grid_2d_graph`)
 
     """
     if max_order is None:
@@ -320,4 +324,4 @@ def _cliques_to_fill(G, max_order):
             else:
                 break  # dont go over whole list if not necessary
 
-    return cliques
+    return [frozenset(clique) for clique in cliques]
